@@ -56,6 +56,10 @@ CHECKS = {
          "VTLSdmx transcribes the documented role table, type table and nullability rule; TLC (GenSdmx) maps EVERY data type known to the installed pysdmx (read at check time) x every role, and seeded structures of 1-5 components, to the documented VTL structure or to the input-validation error, and checks that dimensions are the only non-nullable components. Each structure is built as Schema, DataStructureDefinition and Dataflow and observed through to_vtl_json(), semantic_analysis(), run() and run_sdmx(): one component per SDMX component with the documented role, type and nullability, or an InputValidationException.",
          "SDMX-ML / SDMX-JSON structure files need pysdmx[xml], which is not installed: pysdmx objects only.",
          "TLC enumeration of the documented SDMX mapping tables replayed into the four API entry points"),
+ 'C30': ('model_checking',
+         "VTLConfig transcribes the documented ranges and defaults of OUTPUT_NUMBER_SIGNIFICANT_DIGITS (scale) and VTL_DUCKDB_DECIMAL_WIDTH (precision) and models storage under DECIMAL(width, scale) with schoolbook arithmetic on digit sequences (38-digit values do not fit TLC's 32-bit integers): rounding half away from zero to the scale, rejection of values needing more than width - scale integer digits, exact sums and differences. TLC (GenConfig) emits for every requested setting the documented verdict and, for accepted settings, the stored form of 11 probe values (all configured digits, one integer digit too many, half-way rounding of both signs, rounding that overflows the width, one unit in the last place ...) and exact sums / differences, and checks (a + b) - b = a on the probe set. Each setting is replayed in a FRESH interpreter with exact CSV inputs; sequences check that removing the variables restores the documented defaults.",
+         "Quick tier: border values of each variable with the other unset, a grid of border pairs and seeded pairs; thorough: all 51 x 51 pairs of -5..45 plus unset. Returned doubles are compared with the exact decimal at 1e-13 relative tolerance. A scale above the width (both inside their documented ranges) is documented nowhere: only a raw error is reported there.",
+         "TLC decimal-arithmetic model of the documented settings replayed into run() in fresh processes"),
  'C32': ('model_checking',
          "VTLApi obligation OutcomeAlphabet: a call ends ok or with a catalogued VTL error; a raw exception has no enabling action, so its event is rejected by VTLApi_Trace. Drivers: a runtime-hostile generator (about 230 script templates: numeric domain errors, overflows, zero divisors at dataset / component / scalar level, casts of unparsable text, regex operators with malformed patterns, substr / instr edge arguments, every time operator over periods of every indicator incl. W53 / D366 / year 9999, date arithmetic overflow, duration conversions, conditionals) x hostile value pools x the four time-period output formats x memory / csv / parquet delivery, plus random units and corpus scripts. Only calls whose script passes semantic_analysis() are judged (the property's antecedent).",
          "Inputs are generated valid for their declared structure. Raw errors raised inside semantic analysis are counted and listed in the evidence notes but not judged (outside the antecedent).",
